@@ -257,6 +257,8 @@ pub(crate) enum ExprErrorKind {
     DivisionByZero,
     #[error("Cannot draw a random number below {0}")]
     EmptyRandomRange(i64),
+    #[error("The function {0} is not implemented")]
+    NotImplemented(&'static str),
 }
 
 /// Could not construct static iterator
